@@ -369,6 +369,14 @@ class Evaluator:
                 return ("opt", self.as_bool(vals[1]), self.as_term(vals[0]))
         if name in ("bool",):
             return vals[0]
+        # the library's generic accessors xtl::has_value(x) / xtl::value(x): the member accessors for an optional, `true` / the operand itself otherwise
+        if name in ("has_value", "value") and len(args) == 1:
+            v0 = self.ev(args[0], env)
+            if v0[0] in ("optref", "opt"):
+                return self.member(v0, name)
+            if v0[0] in ("presence", "valueof"):
+                v0 = self.deref(v0)
+            return ("bool", True) if name == "has_value" else v0
         # an operation on optional objects themselves (delegation to another overload): modular reasoning
         if any(v[0] in ("optref", "opt") for v in vals):
             pres = True
